@@ -56,6 +56,71 @@ MISSED = {
  "C09-B": "reported by C16-R2 only; the retry-consistency rule is now shared as C09-R6",
  "C04-B": "reported by C05-R4 (the noise-test clause belongs to C05); not a C04 rule",
 }
+# wave 2 (ids *-C: two cooperating edits, each harmless alone; *-D: one edit away from the obvious place).
+# 'arrival' = properties whose check (as committed when the change arrived: 9c38805 for C01-C12, ead47b7 for C11-C20) exited 1
+# on the patched tree; reproduced with the old checker versions from git, see DESIGN.md 11.4.
+WAVE2 = {
+ "C01-C": (["C01", "C18"], False, "reported, but C01-R5 also fired on the harmless half C_part1 (false alarm, corrected: the rule now reads the effective grid of force_to_grid(x, mesh, tol)); the other half (rounding after the filter) is judged a real weakening and stays reported by C18-R3 / C02"),
+ "C01-D": (["C01"], False, ""),
+ "C02-C": ([], True, "missed: an optimistic memoised summary through a call cycle hid it (order dependent); summaries are now computed with unseeded parameters"),
+ "C02-D": (["C02"], False, ""),
+ "C03-C": (["C03", "C05"], False, "reported only because both harmless halves raised false alarms (C03-R4 pattern match, C05-R3 floor); C03-R4 is now a symbolic comparison of the reserve arithmetic and reports the combination only"),
+ "C03-D": (["C03", "C04", "C20"], False, ""),
+ "C04-C": (["C04", "C12"], False, "C04-R3 also fired on the harmless half C_part2 (false alarm, corrected: nanargmin over the table accepted iff allocation and growth fill with NaN); the other half (zero padding) is a real C12 break and stays reported"),
+ "C04-D": (["C01", "C02"], True, "C03/C04/C05 stopped with an analysis error (a local alias of the log arrays was not resolved); aliases are followed now and C04-R3 reports the stale alias"),
+ "C05-C": (["C19"], False, "reported only through a false alarm of C19-R1 on the harmless half C_part2; C19-R1 relaxed to the slot the next iteration restores from, C05-R7 added for the combination"),
+ "C05-D": (["C07"], True, "the C07 report was a taint false alarm (tuple results tainted every element); own property missed: C05-R8 added (the SD an evaluation returns is the target's own)"),
+ "C07-C": ([], True, "missed by every check; C07-R5 added (no value derived from the text rendering of a float array)"),
+ "C07-D": (["C07", "C20"], False, ""),
+ "C08-C": (["C01", "C08"], False, "reported, but C08-R1 also fired on the harmless half C_part1; the rule now keeps not(a <= b) apart from b < a and accepts the NaN-rejecting spelling in the validator or the transformer"),
+ "C08-D": (["C01", "C08"], False, ""),
+ "C09-C": ([], True, "missed by every check; C12-R4 now compares the guard of a conditionally allocated per-row array with the guard of its growth"),
+ "C09-D": (["C12"], False, "reported by C12-R4 only (the crash is a C12 growth inconsistency)"),
+ "C10-C": (["C10"], False, "reported, but C10-R2/R5 also fired on the harmless half C_part1 (validation factored into a helper); rules look one level into helpers now"),
+ "C10-D": ([], True, "missed by every check; C10-R6 added (first-element extraction needs a size-1 guard)"),
+ "C11-C": (["C01", "C08", "C11"], False, "reported only through false alarms on the harmless half C_part2 (bound conversion moved into a helper); tag policies now summarise package helpers, and the combination is reported by the alias rule C20-R5"),
+ "C11-D": ([], True, "missed by every check; C11-R5 added (the masking helper selects by assignment, never by multiplication)"),
+ "C12-C": (["C12"], False, "reported, but C12-R4 also fired on both harmless halves (pad / allocate-and-copy growth idioms); growth recognition generalised"),
+ "C12-D": (["C12"], False, ""),
+ "C13-C": (["C13"], False, "reported only through a false alarm of C13-R1 on the harmless half C_part1 (re-initialisation in run set-up); R1 accepts it now and the combination is reported by the coherence dataflow C13-R5 / C14-R6"),
+ "C13-D": (["C04"], True, "reported by C04-R4 only; C05-R9 added (noise-mode decisions never read the logger's construction-time flag)"),
+ "C14-C": (["C13"], False, "reported only through a false alarm of C13-R2/R3 on the harmless half C_part2 (local temporaries); locals are dereferenced now and the combination is reported by C14-R6 / C13-R5 (stale slot after the search-triggered expansion)"),
+ "C14-D": (["C01", "C17", "C18"], False, ""),
+ "C15-C": ([], True, "missed by every check; C15-R7 added (every incumbent move leaves the re-centring request set, or hands back a surrogate fitted around the new incumbent that every caller rebinds)"),
+ "C15-D": ([], True, "missed by every check; C15-R6 added (the high-water mark advances per recorded row and is bounded only by the live capacity)"),
+ "C16-C": ([], True, "missed by every check; C16-R5 added (the noise vector fit() falls back to is thinned with X and Y)"),
+ "C16-D": (["C16"], False, ""),
+ "C17-C": (["C02", "C18"], False, "each half is reported on its own as well (removing either constraint check weakens C02-R1 / C18-R3); C17-R3 now also requires the constraint stage"),
+ "C17-D": (["C01"], False, "reported by C01-R5 (sibling implementations of the search-bound rounding disagree)"),
+ "C18-C": ([], True, "missed by every check; coherence dataflow C18-R6 added"),
+ "C18-D": ([], True, "missed by every check; C18-R7 added (GP-predicted quantities reach the hedge reward only under isfinite guards)"),
+ "C19-C": (["C05", "C19"], False, ""),
+ "C19-D": ([], True, "missed by every check; C19-R6 added (a result field stored anywhere is stored on every path, exceptional edges included)"),
+ "C20-C": (["C08", "C20"], False, "the half C_part2 alone is reported by C08-R3 (integer x0 truncated in place) and judged real"),
+ "C20-D": (["C07"], False, "reported by C07-R2 (the seed option is never applied)"),
+}
+import re
+def needs_from_notes(sid):
+    f = os.path.join(HERE, "seeded", sid, "NOTES.md")
+    if not os.path.exists(f):
+        return None
+    txt = open(f, encoding="utf-8", errors="replace").read()
+    letter = sid.split("-")[1]
+    m = re.search(r"^## Change %s\b.*?(?=^## Change [A-Z]\b|\Z)" % letter, txt, re.S | re.M)
+    sec = m.group(0) if m else txt
+    lines = sec.splitlines()
+    for i, l in enumerate(lines):
+        if re.search(r"manifest", l, re.I):
+            out = []
+            for l2 in lines[i:i + 14]:
+                if out and (not l2.strip() or l2.startswith("#")):
+                    break
+                out.append(l2.strip())
+            t = " ".join(out)
+            t = re.sub(r"^[#*\-\s]*", "", t)
+            return t[:700]
+    return None
+
 for sid in sorted(os.listdir(os.path.join(HERE, "seeded"))):
     f = os.path.join(HERE, "seeded", sid, "meta.json")
     if not os.path.exists(f):
@@ -63,7 +128,18 @@ for sid in sorted(os.listdir(os.path.join(HERE, "seeded"))):
     m = json.load(open(f))
     if NEEDS.get(sid):
         m["needs_to_manifest"] = NEEDS[sid]
-    if sid in MISSED:
+    elif sid in WAVE2:
+        nt = needs_from_notes(sid)
+        if nt:
+            m["needs_to_manifest"] = nt
+    if sid in WAVE2:
+        arr, missed, note = WAVE2[sid]
+        m["reported_on_arrival_by"] = arr
+        m["missed_when_it_arrived"] = missed
+        if note:
+            m["strengthening"] = note
+        m["wave"] = 2
+    elif sid in MISSED:
         m["missed_when_it_arrived"] = True
         m["strengthening"] = MISSED[sid]
     else:
